@@ -117,7 +117,6 @@ class Source(tuple, metaclass=abc.ABCMeta):
         def __repr__(cls):
             return f'{cls.__module__}:{cls.__qualname__}'
 
-        @functools.lru_cache
         def __getitem__(cls, name: str) -> 'dsl.Field':
             try:
                 item = getattr(cls, name)
